@@ -70,9 +70,9 @@ def split_case(comp, policy, direction, n=2):
             claims.append(Claim(f"unit{i}_braking_within_drivetrain_rating", lambda c, i=i: LE(-out(c, i), c.S[f"l{i}_edrv_pwr_out_max"]), role="braking_within_drivetrain_rating"))
             claims.append(Claim(f"unit{i}_does_not_push_while_consist_brakes", lambda c, i=i: LE(out(c, i), 0)))
             if k == "C":
-                claims.append(Claim(f"unit{i}_conventional_idle_when_regen_suffices", lambda c, i=i: IMP(EQ(c.S["cs_pwr_regen_deficit"], 0), EQ(out(c, i), 0))))
+                claims.append(Claim(f"unit{i}_conventional_idle_when_regen_suffices", lambda c, i=i: IMP(XEQ(c.S["cs_pwr_regen_deficit"], 0), EQ(out(c, i), 0))))
             else:
-                claims.append(Claim(f"unit{i}_regen_within_published_regen_limit_when_regen_suffices", lambda c, i=i: IMP(EQ(c.S["cs_pwr_regen_deficit"], 0), LE(-out(c, i), c.S[f"l{i}_ls_pwr_regen_max"]))))
+                claims.append(Claim(f"unit{i}_regen_within_published_regen_limit_when_regen_suffices", lambda c, i=i: IMP(XEQ(c.S["cs_pwr_regen_deficit"], 0), LE(-out(c, i), c.S[f"l{i}_ls_pwr_regen_max"]))))
     if policy == "RESGreedy" and direction == "pos":
         conv = [i for i, k in enumerate(comp) if k == "C"]
         if conv:
